@@ -172,6 +172,44 @@ def rules(rep, m):
                             where=m.rel(loc(x)))
                 r3.fail()
 
+    # R-C17-5 unsigned differences -------------------------------------------------
+    r5 = rep.rule("R-C17-5", "sample counts are unsigned: a difference of two counts (or a count minus a constant) is taken "
+                  "only under a guard that makes it non-negative, or after conversion to floating point; otherwise it wraps "
+                  "to ~1.8e19 for some operand order", floor=1)
+    for f in (ds_add, ds_merge, ws_add, ws_merge) + tuple(acc.values()) + wacc:
+        cx = FuncCtx(m, f)
+        for x in walk(f.body):
+            if x["kind"] != "BinaryOperator" or x.get("opcode") != "-":
+                continue
+            t = (x.get("type") or "")
+            if not ("uint64_t" in t or "unsigned" in t):
+                continue
+            a_, b_ = cx.canon(kids(x)[0]), cx.canon(kids(x)[1])
+            if "count" not in a_ + b_:
+                continue
+            r5.instance("%s: unsigned (%s - %s)" % (f.name, a_, b_))
+            ok = False
+            need = None
+            if re.fullmatch(r"\d+", b_):
+                need = int(b_)
+            for anc in inv.enclosing_chain(f, x):
+                if anc["kind"] == "IfStmt" and any(y is x for y in walk(kids(anc)[1])):
+                    c = cx.canon(kids(anc)[0])
+                    if need is not None:
+                        for mm in re.finditer(r"\(%s > (\d+)\)" % re.escape(a_), c):
+                            if int(mm.group(1)) >= need - 1 and "||" not in c:
+                                ok = True
+                    else:
+                        if re.search(r"\(%s >=? %s\)" % (re.escape(a_), re.escape(b_)), c) and "||" not in c:
+                            ok = True
+            if ok:
+                r5.ok()
+            else:
+                rep.finding(r5, f.name, "unsigned-difference", "%s computes the unsigned difference %s - %s without a guard: "
+                            "when the first is smaller it wraps around, so the result depends on the order of the operands"
+                            % (f.name, a_, b_), where=m.rel(loc(x)))
+                r5.fail()
+
     # R-C17-4 ------------------------------------------------------------------
     r4 = rep.rule("R-C17-4", "merge computes into a local and writes the target only through one final struct copy (operands "
                   "may alias the target); count, min and max are merged with the right operations", floor=2)
